@@ -7,7 +7,7 @@
    crash states, compared with the model's kill view and opened by a fresh store instance) and
    with strace failing its k-th call with ENOSPC/EIO/EACCES/EMFILE (real fault outcomes).
 """
-import base64, concurrent.futures, json, os, re, shutil, subprocess, hashlib
+import base64, concurrent.futures, json, os, re, shutil, subprocess, hashlib, time
 import vlib
 
 CALLS = ("openat,open,creat,mkdirat,mkdir,renameat,renameat2,rename,unlink,unlinkat,rmdir,fsync,fdatasync,"
@@ -390,6 +390,16 @@ class Driver:
         return json.loads(out.stdout or "[]") or []
 
     def snapshot(self, root):
+        # a process under observation may still be renaming / unlinking: a name that vanishes between the listing and
+        # the read means "look again", not a crash of the check
+        for attempt in range(20):
+            try:
+                return self._snapshot(root)
+            except FileNotFoundError:
+                time.sleep(0.01)
+        return self._snapshot(root)
+
+    def _snapshot(self, root):
         snap = {}
         for dp, dn, fn in os.walk(root):
             for f in fn:
